@@ -2,8 +2,6 @@ package padding
 
 import (
 	"errors"
-
-	"github.com/emmansun/gmsm/internal/byteorder"
 )
 
 // The padded data comprises (in this order):
@@ -48,7 +46,12 @@ func (pad iso9797M3Padding) Pad(src []byte) []byte {
 	if overhead > 0 {
 		clear(tail)
 	}
-	byteorder.BEPutUint64(head[8:], uint64(srcLen*8))
+	// bit length, big endian, right-aligned in the first block whatever the block size
+	bits := uint64(srcLen) * 8
+	for i := pad.BlockSize() - 1; i >= 0 && bits > 0; i-- {
+		head[i] = byte(bits)
+		bits >>= 8
+	}
 	return head
 }
 
@@ -58,15 +61,21 @@ func (pad iso9797M3Padding) Unpad(src []byte) ([]byte, error) {
 	if srcLen < 2*pad.BlockSize() || srcLen%pad.BlockSize() != 0 {
 		return nil, errors.New("padding: invalid src length")
 	}
-	for _, b := range src[:8] {
-		if b != 0 {
-			return nil, errors.New("padding: invalid padding header")
+	// the length occupies the last (up to) 8 bytes of the first block, everything before it is zero
+	var bits uint64
+	for i, b := range src[:pad.BlockSize()] {
+		if i < pad.BlockSize()-8 {
+			if b != 0 {
+				return nil, errors.New("padding: invalid padding header")
+			}
+			continue
 		}
+		bits = bits<<8 | uint64(b)
 	}
-	dstLen := int(byteorder.BEUint64(src[8:pad.BlockSize()])/8)
-	if dstLen < 0 || dstLen > srcLen-pad.BlockSize() {
+	if bits/8 > uint64(srcLen-pad.BlockSize()) {
 		return nil, errors.New("padding: invalid padding header")
 	}
+	dstLen := int(bits / 8)
 	padded := src[pad.BlockSize()+dstLen:]
 	for _, b := range padded {
 		if b != 0 {
